@@ -573,3 +573,6 @@ func VerifC03ParallelFailures() {
 	vassert(errors.Is(e1, errs["a"]) || errors.Is(e1, errs["b"]), "the run reports the error of one of the failing nodes")
 	vassert(errors.Is(e1, errs["a"]) == errors.Is(e2, errs["a"]), "which failure is reported does not depend on the completion order")
 }
+
+// thorough tier: three parallel nodes in all-predecessor mode
+func VerifC03ParDAG3() { c03Par(1, 3) }
